@@ -230,10 +230,11 @@ Proof. exact gen_threshold_small_exp. Qed.
 Print Assumptions C08_gen_threshold_small_exp.
 
 (** the work precision of the route since the repair F07: twice the target precision plus the digits (base NB) of
-    exponent * bit_len(B) - these cover the integer part of exponent * ln B, which the Euclidean division cancels *)
+    exponent * bit_len(B) - these cover the integer part of exponent * ln B, which the Euclidean division cancels -
+    and since the repair F11 (round 4) plus the digits of 2^20: guard digits for the constant factors of the error *)
 Theorem C08_gen_large_work_precision : forall p e B NB, 2 <= NB -> 2 <= B -> 1 <= p -> e <> 0 ->
   let wp := large_work_precision_gen p e B NB in
-  wp = 2 * p + dlen NB (e * ElemF32.bit_len B) /\ 2 * p < wp /\
+  wp = 2 * p + dlen NB (e * ElemF32.bit_len B) + dlen NB 1048576 /\ 2 * p < wp /\
   NB ^ (2 * p - 1) * (Z.abs e * ElemF32.bit_len B) < NB ^ (wp - 1).
 Proof. exact gen_large_work_precision_full. Qed.
 Print Assumptions C08_gen_large_work_precision.
@@ -343,6 +344,33 @@ Theorem C08_convert_large_route_error_fixed : forall (rB rNB : radix) (p k e q s
 Proof. exact convert_large_route_error_fixed. Qed.
 Print Assumptions C08_convert_large_route_error_fixed.
 
+(** since the repair F11 no condition on the target precision is left: NB^g > 2^20 (g = digits of 2^20), so for EVERY p >= 1,
+    every exponent, every base below 2^64 and k <= 1024: eps <= 18 k log2up(NB) NB^(1-2p) / 2^20 *)
+Theorem C08_gen_large_work_precision_guard : forall p e B NB, 2 <= NB -> 2 <= B -> 1 <= p -> e <> 0 ->
+  let wp := large_work_precision_gen p e B NB in
+  let g := dlen NB 1048576 in
+  1 <= g /\ 1048576 < NB ^ g /\ 2 * p + g < wp /\ NB ^ (2 * p - 1 + g) * (Z.abs e * ElemF32.bit_len B) < NB ^ (wp - 1).
+Proof. exact gen_large_work_precision_guard. Qed.
+Print Assumptions C08_gen_large_work_precision_guard.
+
+Theorem C08_convert_large_route_error_guarded : forall (rB rNB : radix) (p k e q s : Z) (a c m r E Rf : R),
+  let wp := large_work_precision_gen p e rB rNB in
+  let LB := ln (IZR rB) in let LN := ln (IZR rNB) in
+  let D := IZR (rNB ^ (wp - 1)) in let u := (/ D)%R in let kap := (IZR k * u)%R in
+  let tn := IZR (lr_tn k rB rNB e) in
+  let en := (IZR k * D + 2 * tn * D + 2 * IZR k * tn)%R in
+  1 <= k <= 1024 -> 1 <= p -> e <> 0 -> rNB < 2 ^ 64 ->
+  (Rabs (a - LB) <= kap * LB)%R -> (Rabs (c - LN) <= kap * LN)%R ->
+  (Rabs (m - IZR e * a) <= u * Rabs (IZR e * a))%R ->
+  (0 <= m - IZR q * c < c)%R -> (Rabs (r - (m - IZR q * c)) <= u * (m - IZR q * c))%R ->
+  (Rabs (E - exp r) <= kap * exp r)%R ->
+  (Rabs (Rf - IZR s * E * bpow rNB q) <= bpow rNB (1 - p) * Rabs (IZR s * E * bpow rNB q))%R ->
+  (Rabs (Rf - IZR s * bpow rB e) <=
+     (bpow rNB (1 - p) * (1 + en / (D * D)) + en / (D * D)) * Rabs (IZR s * bpow rB e))%R /\
+  (en / (D * D) <= IZR (18 * k * Z.log2_up rNB) * bpow rNB (1 - 2 * p) / 1048576)%R.
+Proof. exact convert_large_route_error_guarded. Qed.
+Print Assumptions C08_convert_large_route_error_guarded.
+
 Theorem C08_large_route_check_wp_sound : forall (rNB : radix) k B p wp e N Dv rs re, 0 < Dv -> 1 <= p -> 1 <= wp ->
   large_route_check_wp k B rNB p wp e N Dv rs re = Some true ->
   let D := IZR (lr_Dw rNB wp) in let en := IZR (lr_enw k B rNB wp e) in
@@ -351,9 +379,9 @@ Theorem C08_large_route_check_wp_sound : forall (rNB : radix) k B p wp e N Dv rs
 Proof. exact large_route_check_wp_sound. Qed.
 Print Assumptions C08_large_route_check_wp_sound.
 
-(** the witness of the repaired defect F07 (9e-39 to 3 bits: work precision 6 before, 14 now) *)
+(** the witness of the repaired defect F07 (9e-39 to 3 bits: work precision 6 before, 14 after F07, 35 with the guard digits of F11) *)
 Theorem C08_large_work_precision_before_fix_refuted :
-  large_work_precision_gen 3 (-39) 10 2 = 14 /\
+  large_work_precision_gen 3 (-39) 10 2 = 35 /\
   large_route_check 4 10 2 3 (-39) 9 (10 ^ 39) 3 (-123) = None /\
   large_route_check_wp 4 10 2 3 14 (-39) 9 (10 ^ 39) 3 (-123) = Some false /\
   large_route_check_wp 4 10 2 3 14 (-39) 9 (10 ^ 39) 3 (-128) = Some true.
@@ -667,6 +695,26 @@ Print Assumptions C08_gen4_sci_rounded.
 Theorem C08_gen4_sci_rounded_lowerexp : forall B m s e prec, sci_rounded_gen B false m s e prec = sci_rounded B m s e prec.
 Proof. exact sci_rounded_gen_sci. Qed.
 Print Assumptions C08_gen4_sci_rounded_lowerexp.
+
+Theorem C08_gen4_sci_width : forall B m upper hex f s e prec,
+  radix_pads B m upper hex f s e prec =
+  match f_width f with
+  | None => (0, 0)
+  | Some minw =>
+    let '(signif, exp) := radix_rounded B hex m s e prec in
+    let str := if (s <? 0) && (signif =? 0) then [] else dtext upper (if hex then 16 else B) (Z.abs signif) in
+    let n := len str in
+    let width := sci_width_gen n (len (itoa (if hex then exp + (n - 1) * 4 else exp + (n - 1)))) (s <? 0) (f_plus f) hex prec in
+    if minw <=? width then (0, 0)
+    else if f_zero f then (minw - width, 0)
+    else match f_align f with
+         | Some ALeft => (0, minw - width)
+         | Some ARight | None => (minw - width, 0)
+         | Some ACenter => let d := minw - width in (d / 2, d - d / 2)
+         end
+  end.
+Proof. exact sci_width_gen_eq. Qed.
+Print Assumptions C08_gen4_sci_width.
 
 Theorem C08_gen4_radix_format : forall B t, radix_format_gen B t = radix_format B t.
 Proof. exact radix_format_gen_eq. Qed.
